@@ -48,6 +48,9 @@ def book_gen(ck, name, cfg=GEN_DRAIN, need=(), timeout=600, workers=12, **kw):
         extra["price_offset"] = c.pop("price_offset")
     if "vol_scale" in kw:
         extra["vol_scale"] = c.pop("vol_scale")
+    for k in ("time_scale", "time_offset"):
+        if k in kw:
+            extra[k] = c.pop(k)
     return ck.gen(name, "BookGen", c, "replay_book", rb_args(c, **extra), cfg=cfg, need=need, timeout=timeout, workers=workers)
 
 
@@ -113,6 +116,18 @@ def cross(ck, q, *names):
             # the trading switch of a multi-asset market across snapshots
             mkt_gen(ck, "x_market_toggle_reload", Ticks=(1, 1), Ops=["cap", "disable", "enable", "reload"], Kinds=["L", "M"], Prices=[10],
                     Vols=[1], MaxOrders=2, MaxOps=4 if q else 5, need=("op_reload", "has_trade"), timeout=300 if q else 1500)
+        elif nm == "ties_modify_reload":
+            # snapshots of levels whose queue order differs from the order of the ids (an order re-queued by a modification behind a
+            # later one, all in one instant), then further tied placements: what is rebuilt on load must continue the queue exactly
+            book_gen(ck, "x_ties_modify_reload", Ops=["cap", "modify", "reload"], Dts=[0], Discipline=False, Kinds=["L"], Prices=[10], Vols=[1, 2],
+                     ModPrices=[-1, 10], ModVols=["none", "equal"], MaxOrders=3 if q else 4, MaxOps=5 if q else 6,
+                     need=("op_modify", "op_reload", "dt0", "has_trade"), timeout=300 if q else 1500)
+        elif nm == "big_clock":
+            # large-clock regime (DESIGN.md 3.6): an epoch-like clock (1.7 * 10^18) whose successive values differ by 2^33, so that
+            # queue times of resting orders differ in their upper 32 bits; several price levels per side, aggressors sweeping them
+            book_gen(ck, "x_big_clock", Ops=["cap", "cancel", "modify"], Prices=[10, 11, 12], Vols=[1, 2], Kinds=["L", "M"], ModPrices=[-1, 11],
+                     ModVols=["none", "smaller"], MaxOrders=3 if q else 4, MaxOps=4 if q else 5, time_scale=1 << 33, time_offset=1700000000000000000,
+                     need=("has_trade", "sweep_two_levels", "op_modify"), timeout=300 if q else 1500)
         elif nm == "big_volumes":
             # large-volume regime (DESIGN.md 3.6): one specification unit of volume is 1.3 * 10^9 in the real book, so single volumes
             # and volume changes exceed 2^31 while per-side totals and the traded volume stay below 2^32 (VolCap = 3 units)
@@ -122,7 +137,7 @@ def cross(ck, q, *names):
         elif nm == "top_price":
             # the last grid price below 2^32 - 1 for a tick size that does not divide it (tick 2: 4294967294) as a limit price of
             # placements and modifications, next to market orders (which carry 2^32 - 1)
-            book_gen(ck, "x_top_price", Ops=["cap", "cancel", "modify"], Tick=2, NLevels=2, Prices=[10, 12, 14], ModPrices=[-1, 14], ModVols=["none", "smaller"],
+            book_gen(ck, "x_top_price", Ops=["cap", "cancel", "modify"], Tick=2, NLevels=2, Prices=[12, 14] if q else [10, 12, 14], ModPrices=[-1, 14], ModVols=["none", "smaller"],
                      Kinds=["L", "M"], price_offset=high(2, 14), MaxOrders=3, MaxOps=4 if q else 5, need=("has_trade", "op_modify", "two_sided"),
                      timeout=300 if q else 1500)
         else:
@@ -182,7 +197,7 @@ def c01(tier, seed):
     book_gen(ck, "gen_split_api", Ops=["create", "place", "cancel", "event", "settime"], Dts=[0, 1], Tick=3, NLevels=2,
              Prices=[9, 12], Vols=[1, 2] if q else [1, 2, 3], Kinds=["L", "M"], MaxOrders=2 if q else 3, MaxOps=4 if q else 5,
              need=("has_trade", "unplaced_order"), timeout=300 if q else 1500)
-    cross(ck, q, "ties", "ties_deep", "split_modify", "big_volumes", "top_price")
+    cross(ck, q, "ties", "ties_deep", "split_modify", "big_volumes", "top_price", "big_clock")
     # long random histories over wide alphabets, recorded from the real code and validated by TLC
     ck.traces_stage("rand", "record_book", {"discipline": True}, files=8 if q else 64, runs=2 if q else 4, ops=300)
     # the same without the clock discipline: half of the queue insertions tie
@@ -246,7 +261,7 @@ def c03(tier, seed):
     book_gen(ck, "gen_ledger", cfg=GEN, Ops=["cap", "cancel", "modify", "resettv"], Prices=[10, 11], Vols=[1, 3],
              ModPrices=[-1, 10, 11], ModVols=["smaller", "larger"], MaxOrders=3, MaxOps=4 if q else 5,
              need=("has_trade", "multi_trade", "op_resettv", "op_modify"), timeout=300 if q else 1500)
-    cross(ck, q, "reload_resettv", "ties", "off_modify", "big_volumes")
+    cross(ck, q, "reload_resettv", "ties", "off_modify", "big_volumes", "big_clock")
     prof = {"discipline": True, "audit_every": 10, "w": {"toggle": 0.5, "resettv": 1.5, "modify": 5, "reload": 0.5}}
     ck.traces_stage("rand_ledger", "record_book", prof, files=8 if q else 64, runs=2 if q else 4, ops=300)
     python_view(ck, q)
@@ -273,7 +288,7 @@ def c04(tier, seed):
     book_gen(ck, "gen_requests_off", cfg=GEN, Ops=["cap", "place", "cancel", "modify", "event", "enable"], Trading0=False,
              Prices=[10], Vols=[1], ModPrices=[-1, 10], ModVols=["none", "equal", "larger"], MaxOrders=2, MaxOps=4 if q else 5,
              need=("rejected_order",), timeout=300 if q else 1500)
-    cross(ck, q, "ties", "ties_modify", "split_modify", "top_price")
+    cross(ck, q, "ties", "ties_modify", "split_modify", "top_price", "big_clock")
     prof = {"discipline": True, "p_redundant": 0.3, "audit_every": 25, "w": {"toggle": 0.4, "settime": 1.5, "place": 4, "create": 3}}
     ck.traces_stage("rand_redundant", "record_book", prof, files=8 if q else 64, runs=2 if q else 4, ops=300)
     python_view(ck, q)
@@ -315,6 +330,7 @@ def c05(tier, seed):
     env_traces(ck, "rand_env_overflow", {"step_sizes": [1, 2, 3], "max_batch": 12, "p_step": 0.1, "nprices": 4}, files=6 if q else 48, runs=3 if q else 6, ops=200)
     env_traces(ck, "rand_env_overflow_inferred", {"step_sizes": [1, 2], "max_batch": 6, "p_step": 0.2, "nprices": 4}, files=4 if q else 32, runs=3 if q else 6,
                ops=120, hook=False)
+    cross(ck, q, "ties_modify_reload")
     prof = {"discipline": False, "p_tie": 0.5, "nprices": 6, "audit_every": 25, "w": {"modify": 4, "reload": 0.5, "toggle": 0.3}}
     ck.traces_stage("rand_ties", "record_book", prof, files=8 if q else 64, runs=2 if q else 4, ops=300)
     python_view(ck, q)
